@@ -147,5 +147,22 @@ func registry() map[string]PropSpec {
 			"net/url.Parse replaced by vpModelURLParse and path.Join by vpModelPathJoin (validated natively: every string <= 6 symbols over a 13-symbol alphabet, 300k random strings <= 14 bytes, and path.Join on 488k element combinations)",
 		},
 	})
+	add(PropSpec{
+		ID: "C07",
+		Harnesses: []HSpec{
+			{Pkg: "ordered", Name: "c07_merge_chain", Quick: map[string]int{}, Unwind: [2]int{32, 32},
+				What: "DecodeYAML on merge chains (root merges a and/or c by alias or sequence of aliases, a merges c, merge at any position, symbolic keys): content and order equal the reference of the merge rules"},
+			{Pkg: "ordered", Name: "c07_graph", Quick: map[string]int{"pool": 1, "poolentries": 1, "rootentries": 2}, Thorough: map[string]int{"pool": 1, "poolentries": 2, "rootentries": 2}, Unwind: [2]int{32, 48}, Budget: [2]int{120, 1500},
+				What: "DecodeYAML on arbitrary small node graphs (value aliases incl. self/mutual cycles, aliases in sequences, alias keys, merges by alias / sequence / inline mapping, nested mappings): error iff a value cycle exists, otherwise equal to the reference; aliases expand to independent copies"},
+			{Pkg: "ordered", Name: "c07_graph", Quick: map[string]int{"pool": 1, "poolentries": 2, "rootentries": 1}, Thorough: map[string]int{"pool": 2, "poolentries": 1, "rootentries": 2}, Unwind: [2]int{32, 48}, Budget: [2]int{120, 1500},
+				What: "same, other distribution of entries between root and anchored mappings (two anchors in the thorough tier: mutual cycles, sequences of two merge sources)"},
+		},
+		Outside: []string{
+			"the yaml.v3 scanner/parser that builds the node graph from bytes",
+			"non-string key tags (!!int/!!bool/!!float canonicalisation goes through fmt.Sprintf and yaml.v3's scalar resolver)",
+			"larger graphs; expansion-size blow-up; duplicate explicit keys within one mapping (rejected upstream)",
+		},
+		Assumptions: []string{"(*yaml.Node).Decode on a !!str scalar node yields its Value (engine intrinsic; natively the real library)"},
+	})
 	return r
 }
